@@ -171,6 +171,7 @@ static std::vector<uint8_t> ResolveSrc(const Json& cmd) {
       size_t len = b.size();
       if (op == "set" && len) b[static_cast<size_t>(m.at("at").num()) % len] = static_cast<uint8_t>(m.at("val").num());
       else if (op == "xor" && len) b[static_cast<size_t>(m.at("at").num()) % len] ^= static_cast<uint8_t>(m.at("val").num());
+      else if (op == "add" && len) b[static_cast<size_t>(m.at("at").num()) % len] = static_cast<uint8_t>(b[static_cast<size_t>(m.at("at").num()) % len] + m.at("val").num());
       else if (op == "trunc") b.resize(len ? static_cast<size_t>(m.at("k").num()) % (len + 1) : 0);
       else if (op == "append") { auto x = BytesOf(m.at("b")); b.insert(b.end(), x.begin(), x.end()); }
       else if (op == "insert") { auto x = BytesOf(m.at("b")); size_t at = len ? static_cast<size_t>(m.at("at").num()) % (len + 1) : 0; b.insert(b.begin() + static_cast<long>(at), x.begin(), x.end()); }
